@@ -117,4 +117,76 @@ def run(rd, emit, log, enum_values, ti_default):
     if jg is None: log.append('C18: joins guard structure not recognised (compared only)')
     body += 'Definition f_pm_join_prefix : option (list Z) := %s.\n' % ('Some ' + zl(jp) if jp is not None else 'None')
     body += 'Definition f_pm_join_guard : option bool := %s.\n' % ('None' if jg is None else ('Some true' if jg else 'Some false'))
+    # ---- navigation fields of Host / Service (what EvaluateFilter binds besides obj and the type variable) and the
+    # structure of its binding loop: every FANavigation field is Set - value or null -, no early `continue`
+    def ti_navs(path, cls):
+        src_ti = strip_comments(rd(path))
+        m = re.search(r'class\s+(' + cls + r')\s*:\s*(\w+)', src_ti)
+        if not m:
+            return None, None
+        src_ti = src_ti[m.end():]
+        names = []
+        for fm in re.finditer(r'\[([^\]]*)\]\s*(?:name\(\w+\)|[\w:]+)\s+(\w+)', src_ti):
+            attrs = [x.strip() for x in fm.group(1).split(',')]
+            nav = [x for x in attrs if x == 'navigation' or x.startswith('navigation(')]
+            if nav:
+                mm = re.match(r'navigation\((\w+)\)', nav[0])
+                names.append(mm.group(1) if mm else fm.group(2))
+        return m.group(2), names
+    chain = {'Host': 'lib/icinga/host.ti', 'Service': 'lib/icinga/service.ti', 'Checkable': 'lib/icinga/checkable.ti',
+             'CustomVarObject': 'lib/icinga/customvarobject.ti', 'ConfigObject': 'lib/base/configobject.ti'}
+    def navs_of(cls):
+        out, seen = [], 0
+        cur = cls
+        parts = []
+        while cur in chain and seen < 6:
+            base, names = ti_navs(chain[cur], cur)
+            if names is None:
+                return None
+            parts.append(names)
+            cur = base
+            seen += 1
+        if cur not in ('Object', 'ConfigObject') and cur in chain:
+            return None
+        for names in reversed(parts):      # base class fields first (field id order)
+            out += names
+        return out
+    for cls in ('Host', 'Service'):
+        nv = navs_of(cls)
+        if nv is None:
+            log.append('C18: navigation fields of %s not recognised (compared only)' % cls)
+            body += 'Definition f_pm_nav_%s : option (list string) := None.\n' % cls.lower()
+        else:
+            body += 'Definition f_pm_nav_%s : option (list string) := Some [%s].\n' % (cls.lower(), '; '.join('"%s"%%string' % x for x in nv))
+    fu = strip_comments(rd('lib/remote/filterutility.cpp'))
+    bg = None
+    m = re.search(r'bool\s+FilterUtility::EvaluateFilter\s*\(', fu)
+    if m:
+        i = fu.find('{', m.end())
+        depth, k = 1, i + 1
+        while k < len(fu) and depth:
+            if fu[k] == '{': depth += 1
+            elif fu[k] == '}': depth -= 1
+            k += 1
+        eb = fu[i + 1:k - 1]
+        lm = re.search(r'for\s*\(\s*int\s+fid\s*=\s*0\s*;.*?fid\+\+\s*\)\s*\{', eb)
+        if lm:
+            depth, k = 1, lm.end()
+            while k < len(eb) and depth:
+                if eb[k] == '{': depth += 1
+                elif eb[k] == '}': depth -= 1
+                k += 1
+            loop = eb[lm.end():k - 1]
+            norm = re.sub(r'\s+', ' ', loop).strip()
+            expected = ('Field field = type->GetFieldInfo(fid); if ((field.Attributes & FANavigation) == 0) continue; '
+                        'Object::Ptr joinedObj = target->NavigateField(fid); if (field.NavigationName) '
+                        'frameNS->Set(field.NavigationName, joinedObj); else frameNS->Set(field.Name, joinedObj);')
+            sets_before = re.search(r'frameNS->Set\(\s*"obj"\s*,\s*target\s*\)\s*;\s*frameNS->Set\(\s*varName\s*,\s*target\s*\)\s*;', eb[:lm.start()])
+            if norm == expected and sets_before:
+                bg = True
+            elif norm.count('continue') != 1 or re.search(r'if\s*\(\s*!?\s*joinedObj', norm) or not sets_before:
+                bg = False      # recognisably different: a binding can be skipped
+    if bg is None:
+        log.append('C18: binding loop of EvaluateFilter not recognised (compared only)')
+    body += 'Definition f_pm_bind_guard : option bool := %s.\n' % ('None' if bg is None else ('Some true' if bg else 'Some false'))
     emit('Facts_c18.v', body)
